@@ -604,7 +604,39 @@ def sc_stale_relabel(r):
     return ops
 
 
-SCENARIOS = [sc_replace_cc, sc_stale_fetch, sc_dual_exhaust, sc_faults, sc_cc_retry, sc_restart, sc_cursor, sc_labels, sc_service, sc_preset, sc_terminating_overlap, sc_dual_blocked, sc_bootstrap_unfinalized, sc_replaced_node, sc_sibling_cc, sc_service_release, sc_applied_then_failed, sc_foreign_preset, sc_stale_relabel]
+def sc_bootstrap_pair(r):
+    """two ClusterCIDRs filed under one selector are mapped at start-up; the write adding the finalizer fails for one of them, which
+    is then deleted (it vanishes at once, having no finalizer): the left-over entry must be removed from a list that still
+    holds the other one, and the other one keeps serving"""
+    sel, good, bad = _rng_sel_and_labels(r)
+    ops = ["cc+ c1 %s - 4 %s - 1 1" % (tok4(0x0a000000, 27), sel), "cc+ c2 %s - 4 %s - 1 2" % (tok4(0x0a000100, 27), sel),
+           "n+ n1 %s -" % good, "construct - - " + r.choice(["fail,ok", "ok,fail", "fail,fail", "aerr,fail"]), "start"]
+    ops += r.choice([["pn ok"], ["pn ok", "pc ok"], []])
+    gone = r.choice(["c1", "c2"])
+    ops += ["cc- " + gone, "dc", "dc", "pc ok", "pc ok", "tick", "pc ok"]
+    for i in range(2, 5):
+        ops += ["n+ n%d %s -" % (i, good), "dn", "pn ok"]
+    ops += ["tick", "pn ok", "pn ok"]
+    return ops
+
+
+def sc_v6_too_big(r):
+    """an IPv6 range with more than 2^16 per-node blocks: the ClusterCIDR is rejected when its pools are built (also at start-up),
+    it serves nobody and disturbs nobody else"""
+    sel, good, bad = _rng_sel_and_labels(r)
+    big = "cc+ c1 - %s %d %s - 1 1" % (tok6(0xfd000000 << 96, r.choice([64, 96, 100])), r.choice([4, 8]), sel)
+    ok = "cc+ c2 %s - 4 %s - 1 2" % (tok4(0x0a000000, 27), sel)
+    if r.random() < 0.5:
+        ops = [big, ok, "construct - - -", "start", "pc ok", "pc ok"]
+    else:
+        ops = ["construct - - -", "start", big, "dc", "pc ok", ok, "dc", "pc ok", "dc", "pc ok", "tick", "pc ok"]
+    for i in range(1, 4):
+        ops += ["n+ n%d %s -" % (i, good), "dn", "pn ok"]
+    ops += ["cc- c1", "dc", "pc ok", "tick", "pc ok", "pn ok"]
+    return ops
+
+
+SCENARIOS = [sc_replace_cc, sc_stale_fetch, sc_dual_exhaust, sc_faults, sc_cc_retry, sc_restart, sc_cursor, sc_labels, sc_service, sc_preset, sc_terminating_overlap, sc_dual_blocked, sc_bootstrap_unfinalized, sc_replaced_node, sc_sibling_cc, sc_service_release, sc_applied_then_failed, sc_foreign_preset, sc_stale_relabel, sc_bootstrap_pair, sc_v6_too_big]
 
 
 def noise_op(r):
